@@ -164,6 +164,12 @@ func (e *Exec) callFunc(st *State, f *ssa.Function, bindings, args []Value, pos 
 			}
 		}
 	}
+	// replay mode: the bodies of contracted repo callees are executed instead of
+	// their contracts (to a bounded depth), so that a counterexample is
+	// consistent with what the callees really do
+	if spec := e.DB.Funcs[key]; e.ReplayInline > 0 && e.depth < e.ReplayInline && spec != nil && !spec.Trusted && !spec.Extern && spec.Records == "" && len(f.Blocks) > 0 && isRepoFunc(f) && f != e.curFn() {
+		forceInline = true
+	}
 	if spec := e.DB.Funcs[key]; spec != nil && !spec.Inline && !forceInline && f != e.curFn() && !spec.Extern && len(f.Blocks) > 0 {
 		if why := e.staleContract(f, spec); why != "" {
 			// the contract no longer fits the function (its signature or the
@@ -483,6 +489,10 @@ func (e *Exec) applyContract(st *State, spec *FuncSpec, sig *types.Signature, pa
 	e.curRecBase = recBase
 	defer func() { e.curRecBase = savedBase }()
 	for _, en := range spec.Ensures {
+		if e.DB.Dropped[key+"/post/"+clauseLabel(en)] {
+			e.note("postcondition [%s] of %s not assumed: it failed in %s itself, callers are re-verified without it", clauseLabel(en), short, short)
+			continue
+		}
 		if e.tryDefinitional(st, old, en, vars, short) {
 			continue
 		}
@@ -548,6 +558,9 @@ func (e *Exec) applyContract(st *State, spec *FuncSpec, sig *types.Signature, pa
 		rec.Post = st.clone()
 	}
 	for _, fr := range spec.Fresh {
+		if e.DB.Dropped[key+"/post/fresh("+fr.Text+")"] {
+			continue
+		}
 		se := &specEnv{e: e, st: st, old: old, vars: vars, bound: map[string]Value{}, where: "fresh of " + short}
 		fv := se.eval(fr.Expr)
 		// storage declared fresh by the callee belongs to this call: writable
